@@ -284,6 +284,18 @@ def swapStdO (el : Elem α) : Option α → Option α → Option α × Option α
   | none, some y => (some (el.mc y).1, none)
   | none, none => (none, none)
 
+/-- [optional.observe] value_or on lvalues (`mv = false`) and rvalues: (returned value, the optional afterwards) -/
+def valueOrCatO (el : Elem α) (mv : Bool) (o : Option α) (d : α) : α × Option α :=
+  match o with
+  | some x => if mv then ((el.mc x).1, some (el.mc x).2) else (el.cc x, some x)
+  | none => ((el.mc d).1, none)
+
+/-- [optional.monadic] or_else: (contained value of the result, or `none` = `f()` is returned; the optional afterwards) -/
+def orElseCatO (el : Elem α) (mv : Bool) (o : Option α) : Option α × Option α :=
+  match o with
+  | some x => if mv then (some (el.mc x).1, some (el.mc x).2) else (some (el.cc x), some x)
+  | none => (none, none)
+
 /-! ### expected -/
 
 inductive E (α : Type) where
@@ -352,6 +364,12 @@ def expToVar (viaEmplace : Bool) : EOp α → Op α
 def E.valueOr (d : α) : E α → α
   | .val x => x
   | .err _ => d
+
+/-- [expected.object.obs] value_or on lvalues / rvalues: (returned value, the expected afterwards) -/
+def valueOrCatE (el : Elem α) (mv : Bool) (e : E α) (d : α) : α × E α :=
+  match e with
+  | .val x => if mv then ((el.mc x).1, .val (el.mc x).2) else (el.cc x, .val x)
+  | .err y => ((el.mc d).1, .err y)
 
 def E.andThen {ρ : Type} (f : α → ρ) (onErr : α → ρ) : E α → ρ
   | .val x => f x
